@@ -82,14 +82,14 @@ def generate(tier, seed, work, stats):
                 wf_pool.append((ts, alph))
     # well-formed texts rendered from ASTs, with minimal / full / redundant (1-3 extra pairs) parentheses
     states = core.tlc_dump("RegexASTGen", "INIT InitA\nNEXT NextA\nCHECK_DEADLOCK FALSE\n", work, stats=stats, workers=4, name="RegexASTGen")
-    seqs = sorted(tlaparse.to_json(st["rs"]) for st in states)
+    seqs = sorted([real(t) for t in tlaparse.to_json(st["rs"])] for st in states)
     for i, ts in enumerate(seqs):
         if tier == "quick" and (i + seed) % 3:
             continue
-        cases.append(dict(kind="text", toks=ts, style="spaced" if i % 2 else "minimal", alph=["a", "b", "zz"], L=3))
+        cases.append(dict(kind="text", toks=ts, style="spaced" if i % 2 else "minimal", alph=["a", "b", "(", ")", "zz"], L=3))
     for _ in range(600 if tier == "quick" else 6000):
         (a, alph), (b, _) = rnd.choice(wf_pool), rnd.choice(wf_pool)
-        cases.append(dict(kind="comb", toksA=a, toksB=b, alph=sorted(set(alph) | set(_)), L=3))
+        cases.append(dict(kind="comb", toksA=a, toksB=b, alph=sorted(set(alph) | set(_)), L=3, aged=bool(len(cases) % 2)))
     return cases
 
 
@@ -166,6 +166,11 @@ def replay(case):
             del ev["toksB"]
         ra = guard.call(Regex, ta)
         rb = guard.call(Regex, tb) if op != "regex_kleene_star" else ra
+        if case.get("aged") and ra[0] == "ok" and rb[0] == "ok":
+            # the operands answered queries before being combined (cached automata must not leak into the result)
+            for x in (ra[1], rb[1]):
+                guard.call(x.accepts, ["a"])
+                guard.call(x.accepts, [])
         if ra[0] != "ok" or rb[0] != "ok":
             ev["exc"] = "operand"
             evs.append(ev)
